@@ -78,8 +78,9 @@ NextIdx(D, d) ==
     IN  IF is = {} THEN 1 ELSE 1 + CHOOSE i \in is : \A j \in is : j <= i
 
 DiskSize(S, n) == IF n \in DOMAIN S.dir THEN SumLen(S.g, S.dir[n].recs) ELSE 0
-\* QFile::size() on the open active file (after the implied flush)
-ActSize(S) == DiskSize(S, ACTIVE)
+\* QFile::size() on the open active file: the code flushes first, so this is what is on disk plus what
+\* is buffered (the same number for an implementation that counts bytes instead of flushing)
+ActSize(S) == DiskSize(S, ACTIVE) + SumLen(S.g, S.sk.buf)
 
 Without(D, n) == [x \in (DOMAIN D) \ {n} |-> D[x]]
 With(D, n, f) == [x \in (DOMAIN D) \cup {n} |-> IF x = n THEN f ELSE D[x]]
@@ -228,7 +229,8 @@ DoSys(S, C, T, lab, ok) ==
             ELSE [S EXCEPT !.dir[GzOf(rn)].st = "gz", !.dir[GzOf(rn)].recs = S.dir[rn].recs,
                            !.sk.pc = "gzUnlink"]
       [] pc = "gzUnlink" ->
-            IF ok THEN [S EXCEPT !.dir = Without(S.dir, rn), !.sk.pc = "ret"]
+            IF lab.c = "close" THEN [S EXCEPT !.sk.inClosed = TRUE]
+            ELSE IF ok THEN [S EXCEPT !.dir = Without(S.dir, rn), !.sk.pc = "ret"]
             ELSE [S EXCEPT !.g.faulted = TRUE, !.sk.pc = "ret"]
       [] pc = "retU" ->
             LET v == Head(S.sk.vict)
@@ -244,12 +246,24 @@ DoSys(S, C, T, lab, ok) ==
 \* properties then report the loss).  Used by trace validation only.
 ObservableLabels(S) ==
     SysLabels(S) \cup (IF S.sk.pc \in {"ctor", "reopen"} THEN {Lab("open", ACTIVE, NONE, "trunc")} ELSE {})
+                 \* the order in which the two files of a compression are closed does not matter
+                 \cup (IF S.sk.pc = "gzBody" /\ S.sk.wrote THEN {Lab("close", GzOf(S.sk.rn), NONE, "")} ELSE {})
+                 \cup (IF S.sk.pc = "gzUnlink" /\ ~S.sk.inClosed THEN {Lab("close", S.sk.rn, NONE, "")} ELSE {})
 
 \* which outcomes the model allows for a label in state S
 SysEnabled(S, lab, ok) ==
     /\ lab \in ObservableLabels(S)
     /\ ok \/ MayFail(S, lab)
     /\ (S.sk.pc = "cpOpenDst") => ~ok
+
+\* Flushes the code performs only as a side effect of asking QFile for its size; an implementation that
+\* does not flush there (or flushes more often) is the same machine as far as the properties go.
+OptionalFlushPc(pc) == pc \in {"startupF", "dailyF", "sizeF"}
+FlushNow(S, T) ==
+    [S EXCEPT !.dir[ACTIVE].recs = @ \o S.sk.buf, !.dir[ACTIVE].mt = T,
+              !.g.flushed = @ \cup RecSet(S.sk.buf),
+              !.g.stale = @ \/ (\E r \in RecSet(S.sk.buf) : S.g.rday[r] # T[1]),
+              !.sk.buf = <<>>]
 
 \* run all internal steps up to the next libc call (or to rest); they are deterministic
 RECURSIVE Settle(_, _, _)
